@@ -22,7 +22,8 @@ RELATED = {
     'uuidutils.py': ['C14'], 'qemu.py': ['C10'], 'units.py': ['C10', 'C05'],
 }
 ALL = '--all' in sys.argv
-SNAP = '/tmp/sweep/verif'
+ROOT = os.environ.get('SWEEP_ROOT', '/tmp/sweep')
+SNAP = ROOT + '/verif'
 
 
 def related(patch):
@@ -40,7 +41,7 @@ def related(patch):
 
 def one(args):
     patch, tag = args
-    wt = '/tmp/sweep/%s' % tag
+    wt = '%s/%s' % (ROOT, tag)
     shutil.rmtree(wt, ignore_errors=True)
     subprocess.run(['git', '-C', '/repo', 'worktree', 'prune'],
                    capture_output=True)
@@ -77,7 +78,7 @@ def main():
         p = os.path.join(d, 'patch.diff')
         if os.path.exists(p):
             jobs.append((p, d.rstrip('/').replace('/', '_')[-24:]))
-    shutil.rmtree('/tmp/sweep', ignore_errors=True)
+    shutil.rmtree(ROOT, ignore_errors=True)
     os.makedirs(SNAP, exist_ok=True)
     # analyse with a snapshot of the checker so that /verif can be edited
     shutil.copytree('/verif/sa', SNAP + '/sa',
@@ -97,7 +98,7 @@ def main():
             sys.stdout.flush()
     dest = os.environ.get('SWEEP_OUT', '/tmp/sweep_result.json')
     json.dump(out, open(dest, 'w'), indent=1)
-    shutil.rmtree('/tmp/sweep', ignore_errors=True)
+    shutil.rmtree(ROOT, ignore_errors=True)
 
 
 if __name__ == '__main__':
